@@ -583,6 +583,20 @@ func Yield(site string) {
 	r.park(t, site, "yield")
 }
 
+// BlockForever parks the calling task where no one will ever wake it (a stub that stalls).
+func BlockForever(site string) {
+	r := active()
+	if r == nil {
+		select {}
+	}
+	if t := r.lookup(); t != nil {
+		r.mu.Lock()
+		t.site, t.kind = site, "stalled"
+		r.mu.Unlock()
+	}
+	<-make(chan struct{})
+}
+
 // Recv replaces <-ch.
 func Recv[T any, C interface{ ~chan T | ~<-chan T }](ch C, site string) T {
 	Pre(site)
